@@ -66,24 +66,38 @@ def r_io_chain(model, rep):
 # C01 specifics
 # ---------------------------------------------------------------------------------------------------------
 def collects_all(cx, S, term, attr):
-    """``term`` denotes the collection { child.<attr> : child in self.variants.values() } of *all* children:
-    a comprehension over self.variants.values() without condition, or a local filled by .add/.append(child.<attr>) in an
-    unconditional loop over self.variants.values()"""
+    """``term`` denotes the collection { child.<attr> : child in all children of self }: a comprehension over
+    self.variants.values() (or over self / self.variants with child = self.variants[id]) without condition, or a local filled by
+    .add/.append(child.<attr>) in an unconditional loop over all children"""
     vals = ("call", ("attr", ("attr", S, "variants"), "values"), (), ())
+    all_ids = (S, ("attr", S, "variants"), ("call", ("attr", ("attr", S, "variants"), "keys"), (), ()),
+               ("call", ("global", "sorted"), (S,), ()), ("call", ("global", "sorted"), (("attr", S, "variants"),), ()),
+               ("call", ("global", "sorted"), (("call", ("attr", ("attr", S, "variants"), "keys"), (), ()),), ()))
+
+    def child_attr(x, it, var):
+        """x == <child>.<attr> where child is drawn from ``it`` through variable ``var``"""
+        if x[0] != "attr" or x[2] != attr:
+            return False
+        c = x[1]
+        if it == vals or (it[0] == "call" and it[1] == ("global", "six.itervalues") and it[2] == (("attr", S, "variants"),)):
+            return c == var
+        if it in all_ids:
+            return c in (("sub", ("attr", S, "variants"), var), ("sub", S, var))
+        return False
     u = T.unwrap(term)
-    # comprehension / set(<comprehension>)
     for x in T.walk(u):
-        if x[0] == "comp" and len(x[3]) == 1 and x[3][0][1] == vals and not x[3][0][2] and len(x[3][0][0]) == 2 \
-                and x[2] == ("attr", ("bound", x[3][0][0][1]), attr):
+        if x[0] == "comp" and len(x[3]) == 1 and not x[3][0][2] and len(x[3][0][0]) == 2 \
+                and child_attr(x[2], x[3][0][1], ("bound", x[3][0][0][1])):
             return True
     if term[0] == "local":
         adds = [ev for ev in cx.events if ev.kind == "call" and ev.value[1][0] == "attr" and ev.value[1][2] in ("add", "append")
                 and ev.value[1][1][0] == "local" and T.same_local(ev.value[1][1], term)]
-        if len(adds) == 1 and adds[0].loops and adds[0].loops[-1][1] == vals and not T.guard_tests(adds[0]):
-            el = ("elem", adds[0].loops[-1][1], adds[0].loops[-1][0])
+        if len(adds) == 1 and adds[0].loops and not T.guard_tests(adds[0]) and len(adds[0].value[2]) == 1:
+            it = adds[0].loops[-1][1]
+            el = ("elem", it, adds[0].loops[-1][0])
             lids = set(l[0] for l in adds[0].loops)
             cut = [ev for ev in cx.events if ev.kind in ("break", "continue", "return") and set(l[0] for l in ev.loops) & lids]
-            return adds[0].value[2] == (("attr", el, attr),) and not cut
+            return child_attr(adds[0].value[2][0], it, el) and not cut
     return False
 
 
@@ -705,13 +719,14 @@ def r_ti_variant_tree(model, rep):
     ok = len(w) == 1
     if ok:
         v = w[0].value
-        ok = v[0] == "call" and v[1] == ("attr", ("const", ","), "join") and v[2][0][0] == "call" and v[2][0][1] == ("global", "sorted") \
-            and v[2][0][2][0][0] == "local"
+        ok = v[0] == "call" and v[1] == ("attr", ("const", ","), "join") and len(v[2]) == 1
         if ok:
-            loc = v[2][0][2][0]
-            ok = collects_all(cx, S, loc, "uid")
+            src = v[2][0]
+            if src[0] == "call" and src[1] == ("global", "sorted") and len(src[2]) == 1:
+                src = src[2][0]        # whether the list is sorted is C08's business
+            ok = collects_all(cx, S, src, "uid")
     rep.ob("R-TI-VARIANT-TREE", "treeinfo.Variant.serialize:addons", ok, site=cx.site(f.node),
-           msg="" if ok else "'addons' must be the sorted comma list of the uid of exactly the children that are serialised")
+           msg="" if ok else "'addons' must be the comma list of the uid of all children")
     g = model.own_method("treeinfo.Variant", "deserialize_1_0")
     gcx = facts.fctx(model, g)
     S = P(gcx.selfname)
@@ -884,13 +899,30 @@ def r_discinfo_pos(model, rep):
            msg="" if ok else "lines must be read as 0 timestamp, 1 description, 2 arch, 3 disc numbers: %s" % dict((k, sorted(v)) for k, v in table.items()))
     shapes = dict()
     for r in reads:
-        shapes.setdefault(r.attr, []).append(T.show(r.value))
-    want = {"timestamp": ["float(parser[0].strip())"], "description": ["parser[1].strip().strip('\"\\'')"], "arch": ["parser[2].strip()"]}
-    ok = all(shapes.get(k) == v for k, v in want.items())
+        shapes.setdefault(r.attr, []).append(r.value)
+    IN_ = ("param", gcx.params[1])
+
+    def line(i):
+        return ("call", ("attr", ("sub", IN_, ("const", i)), "strip"), (), ())
+    ok = shapes.get("timestamp") == [("call", ("global", "float"), (line(0),), ())] \
+        and [T.show(x) for x in shapes.get("description", [])] == ["parser[1].strip().strip('\"\\'')".replace("parser", gcx.params[1])] \
+        and shapes.get("arch") == [line(2)]
     dn = shapes.get("disc_numbers", [])
-    ok = ok and len(dn) == 2 and dn[0] == "['ALL']" and dn[1].startswith("list<int(i) for i in ") and dn[1].endswith(".split(',')>")
-    rep.ob("R-DISCINFO-POS", "DiscInfo.deserialize:line-values", ok, site=gcx.site(g.node),
-           msg="" if ok else "line decoding changed: %s" % shapes)
+    okd = len(dn) == 2 and T.unwrap(dn[0]) == ("list", (("const", "ALL"),))
+    if okd:
+        c = T.unwrap(dn[1])
+        # [int(i) for i in <line 3>.split(",")]  -- a filter on empty items is tolerated
+        okd = c[0] == "comp" and c[1] == "list" and len(c[3]) == 1 and len(c[3][0][0]) == 2
+        if okd:
+            var = ("bound", c[3][0][0][1])
+            elt_ok = c[2] in (("call", ("global", "int"), (var,), ()), ("call", ("global", "int"), (("call", ("attr", var, "strip"), (), ()),), ()))
+            it = c[3][0][1]
+            it_ok = it[0] == "call" and it[1][0] == "attr" and it[1][2] == "split" and it[2] == (("const", ","),) \
+                and T.contains(it[1][1], lambda x: x == line(3))
+            conds_ok = all(cx_ in (var, ("call", ("attr", var, "strip"), (), ())) for cx_ in c[3][0][2])
+            okd = elt_ok and it_ok and conds_ok
+    rep.ob("R-DISCINFO-POS", "DiscInfo.deserialize:line-values", ok and okd, site=gcx.site(g.node),
+           msg="" if ok and okd else "line decoding changed: %s" % dict((k, [T.show(x)[:80] for x in v]) for k, v in shapes.items()))
     p = model.own_method("discinfo.DiscInfo", "parse_file")
     pcx = facts.fctx(model, p)
     b = model.own_method("discinfo.DiscInfo", "build_file")
@@ -901,6 +933,25 @@ def r_discinfo_pos(model, rep):
     ok = ok and len(rl) == 1
     rep.ob("R-DISCINFO-POS", "DiscInfo.build_file/parse_file", ok, site=bcx.site(b.node),
            msg="" if ok else "the file must be the lines joined with newlines / read back with readlines()")
+
+
+def r_fix_path_identity(model, rep, classes=("treeinfo.Images", "treeinfo.Stage2", "treeinfo.Checksums"), rule_id="R-FIX-PATH"):
+    """_fix_path returns its argument unchanged for every format version but the pre-productmd one"""
+    V = current_version(model)
+    for q in classes:
+        f = model.own_method(q, "_fix_path")
+        cx = facts.fctx(model, f)
+        p_ = P(cx.params[1])
+        rets = [ev for ev in cx.events if ev.kind == "return"]
+        binds = [ev for ev in cx.events if ev.kind == "bind" and ev.target == ("bound", cx.params[1])]
+        ok = bool(rets)
+        for r in rets:
+            alts = set(r.value[1]) if r.value[0] == "phi" else {r.value}
+            legacy = set(b.value for b in binds if not facts.active_at(b, V) and not facts.active_at(b, (1, 0)) and not facts.active_at(b, (0, 3)))
+            ok = ok and p_ in alts and (alts - {p_}) <= legacy and not [g for g in r.guards if facts.gate_term_value(g[0], (1, 0)) is None]
+        rep.ob(rule_id, "%s._fix_path" % q, ok, site=cx.site(f.node),
+               msg="" if ok else "%s._fix_path changes paths of current-version files (it must return its argument unchanged except for "
+                                 "format 0.0): what is read back is not what was written" % q)
 
 
 def r_checksums_schema(model, rep):
@@ -942,6 +993,7 @@ def check_c04(model, rep, tier):
     r_composite(model, rep, "treeinfo.TreeInfo", ["header", "release", "base_product", "tree", "variants", "checksums",
                                                   "images", "stage2", "media"])
     r_section_prefix(model, rep)
+    r_fix_path_identity(model, rep)
     r_section_dep(model, rep)
     r_ti_variant_tree(model, rep)
     r_checksums_schema(model, rep)
@@ -1266,3 +1318,15 @@ def check_c17(model, rep, tier):
         "Not decided: textual equality after ConfigParser formatting.")
     rep.not_decided = ["textual equality after ConfigParser formatting"]
     r_general_prov(model, rep)
+    # sibling agreement: the [variant-*] section carries the same untransformed attribute values [general] copies
+    f = model.own_method("treeinfo.VariantPaths", "serialize")
+    cx, emits = facts.writer_emits(model, f)
+    S = P(cx.selfname)
+    st = [e for e in emits if e.kind == "set"]
+    ok = len(st) == 1 and len(st[0].loops) == 1 and st[0].loops[0][1] == ("attr", S, "_fields")
+    if ok:
+        name = ("elem", st[0].loops[0][1], st[0].loops[0][0])
+        ok = st[0].value in (("call", ("global", "getattr"), (S, name, ("const", None)), ()), ("call", ("global", "getattr"), (S, name), ()))
+    rep.ob("R-GENERAL-PROV", "variant-section-paths-untransformed", ok, site=cx.site(f.node),
+           msg="" if ok else "[variant-*] paths are written through a transformation while [general] copies the raw attribute: packagedir / "
+                             "repository no longer equal the main variant's packages / repository as written")
